@@ -368,6 +368,7 @@ def c16(ctx):
 
 # ======================================================================================= C08-WHO
 THREAD_OK_IN_ENTRY = {'std::thread::scope', 'std::thread::Scope::spawn', 'std::thread::ScopedJoinHandle::join'}
+THREAD_BUILDER = {'std::thread::Builder::new', 'std::thread::Builder::name', 'std::thread::Builder::spawn_scoped', 'std::thread::scoped::spawn_scoped', 'std::thread::Builder::stack_size'}
 THREAD_HARMLESS = {'std::thread::available_parallelism', 'std::thread::current', 'std::thread::yield_now', 'std::thread::sleep',
                    'std::thread::panicking', 'std::thread::ScopedJoinHandle::is_finished', 'std::thread::ScopedJoinHandle::thread'}
 
@@ -378,6 +379,21 @@ def c08_who(ctx):
     S = ctx.slots
     F = ctx.facts
     n = 0
+    # spawn wrappers: loop-free crate functions whose value is a spawn handle for a closure they received, called only from
+    # inside the runner entries (`fn spawn(s, task) { Builder::new().spawn_scoped(s, task).expect(..) }`)
+    from .spawnmodel import spawn_of_term
+    wrappers = set()
+    for b in F.fn_bodies():
+        if b.is_closure() or b.name in S.runner_entries or ctx.cfg(b).loops():
+            continue
+        if not any(res(t).startswith('std::thread::') for _, t in b.calls()):
+            continue
+        r = ctx.run(b.name)
+        sp = spawn_of_term(r.ret) if r.ret is not None else None
+        params = {('param', b.local_name(l) or '_%d' % l) for l in b.arg_locals()}
+        callers = [F.root_of(cb).name for cb in F.fn_bodies() for _, t in cb.calls() if callee_of(t) == b.name]
+        if sp and sp[0] in params and callers and all(c_ in S.runner_entries for c_ in callers):
+            wrappers.add(b.name)
     for b in F.fn_bodies():
         root = F.root_of(b)
         for bb, t in b.calls():
@@ -388,7 +404,7 @@ def c08_who(ctx):
                 continue
             n += 1
             key = 'C08-WHO/%s/%s' % (key_of(root), p.split('::')[-1])
-            if p in THREAD_OK_IN_ENTRY and root.name in S.runner_entries:
+            if (p in THREAD_OK_IN_ENTRY or p in THREAD_BUILDER) and (root.name in S.runner_entries or root.name in wrappers):
                 out.inst(key, True, p, sample={'site': key_of(b), 'callee': p})
                 continue
             out.inst(key, False, p)
@@ -1025,7 +1041,8 @@ def c06_grow(ctx):
             if t.get('exp'):
                 continue
             sh = _head(t.get('self_head') or '')
-            if sh in FIXED_HEADS:
+            # the printed path of the type depends on which re-export is visible from the crate: match the type name
+            if sh in FIXED_HEADS or (sh.startswith('adt:orx_') and sh.endswith('::FixedVec')):
                 n += 1
                 key = 'C06-GROW/%s/%s' % (key_of(b), method(t))
                 ok = method(t) not in BOUNDED_APPENDS
@@ -1040,7 +1057,7 @@ def c06_grow(ctx):
                 tps = root.d.get('type_params', []) if root is not None else []
                 targs = t.get('targs', [])
                 tp = generic[c_]
-                if tp in tps and tps.index(tp) < len(targs) and targs[tps.index(tp)].startswith('orx_fixed_vec::FixedVec'):
+                if tp in tps and tps.index(tp) < len(targs) and ('::FixedVec<' in targs[tps.index(tp)] or targs[tps.index(tp)].endswith('::FixedVec')):
                     n += 1
                     key = 'C06-GROW/%s/%s' % (key_of(b), strip_generics(c_).split('::')[-1])
                     out.inst(key, False, 'generic appender instantiated with FixedVec')
@@ -1159,3 +1176,24 @@ def closure_is_user(ctx, b, root, a):
     if a[0] == 'call' and term_method(a) in ('deref', 'borrow', 'as_ref', 'clone'):
         return closure_is_user(ctx, b, root, a[2][0]) if a[2] else False
     return False
+
+
+# ======================================================================================= C15-STACK
+@rule('C15-STACK', 'the library never chooses a stack size for the threads it spawns')
+def c15_stack(ctx):
+    out = RuleOut('C15-STACK')
+    F = ctx.facts
+    n = 0
+    for b in F.fn_bodies():
+        for bb, t in b.calls():
+            p = res(t)
+            if p.startswith('std::thread::'):
+                n += 1
+                if p.endswith('Builder::stack_size'):
+                    key = 'C15-STACK/%s/stack_size' % key_of(b)
+                    out.inst(key, False, p)
+                    out.fail(key, '%s fixes the stack size of spawned threads: the user\'s closures then run with a different stack on a worker than on the '
+                                  'calling thread (num_threads(1) runs them there), so whether a computation overflows its stack depends on the parameters'
+                             % key_of(b), b.where(t.get('line')))
+    out.count('thread_api_calls', n)
+    return out
